@@ -67,6 +67,24 @@ PROPS = {
         min_nontrivial={"quick": 50, "thorough": 1000},
         reject_ok=True,
     ),
+    "C05": dict(
+        anchors=[("src/data/loading.rs", r"fn new<I: Send \+ 'static>\("), ("src/data/loading.rs", r"impl<O> Iterator for Pipe<O>")],
+        rule="controlled schedules: the cfg(feature=verif) schedule points of the worker loop call into a controller that lets exactly one participant (worker or consumer) run between two points; seeded random policies (with and without failing spins) over W in 1..6 and n in 0..20, depth-first enumeration of ALL progress-making schedules for small (W, n) by prefix replay, and uncontrolled stress runs on real OS schedules (W in 0..8 incl. the unthreaded branch, n <= 300, per-item delays). Every controlled execution is recorded as a trace of events (take/compute/spin/send/advance/recv/close with their observations), replayed a second time against the real code (determinism under the schedule) and validated step by step against the Lean transition system (every event must be enabled and the model must predict the observation)",
+        exhaustive={"quick": "all progress-making schedules of (W=1,n=2) and (W=2,n=1) unless capped (see impl_outcome_histogram dfs:* keys)", "thorough": "all progress-making schedules of (W=1,n=2), (W=2,n=1), (W=2,n=2), (W=3,n=1) unless capped (see impl_outcome_histogram dfs:* keys: complete=true/false)"},
+        trusted=["std::sync::mpsc::sync_channel, Mutex and SeqCst atomics are assumed linearizable as modelled (one shared operation per step)", "the schedule controller serialises threads at the hook points; code between two points touches at most one shared object", "OS scheduler fairness (liveness is proved as deadlock freedom + decreasing measure)"],
+        claim="Labelled transition system of the Pipe (Model/Pipe.lean: ticket take under the mutex, compute, turn spin, channel send with capacity W, turn advance, receive, close, drop) validated against the real threads by trace validation under a controlled scheduler, plus output-only stress runs. Oracle on every run: received = f(x0), f(x1), ... in order, each item processed exactly once, the iteration ends. Theorems for every reachable state / every interleaving (pipe_safety, pipe_complete, pipe_deadlock_free, pipe_measure) are being proved against this model; those present in Props/C05.lean are audited on every run.",
+        note="Memory orderings weaker than SeqCst and panics inside next() are not expressible in the model; real OS interleavings are covered by the stress runs (outputs only).",
+        min_nontrivial={"quick": 100, "thorough": 2000},
+    ),
+    "C09": dict(
+        anchors=[("src/data/loading.rs", r"fn new<I: Send \+ 'static>\("), ("src/data/loading.rs", r"pub fn new<I>\(iter: I, buffer_size: usize\)"), ("src/data/loading.rs", r"impl<O> Iterator for Pipe<O>")],
+        rule="controlled schedules with a drop of the iterator after k received items (random policies, k in 0..20, W in 1..4, n up to 200; DFS over all schedules incl. the drop point for small (W, n)): pull counter of the upstream, thread-exit schedule points, bounds checked at every step; Buffered over bounded and effectively unbounded (0..u64::MAX) upstreams: consume k, measure the lookahead, drop, observe that the pull counter is stable and the thread-exit point fired; panic injection in a child process (the pipeline closure panics at item j; expected exit status 1 within 10 s, not a hang)",
+        exhaustive={"thorough": "all progress-making schedules incl. every drop point of (W=1,n=2), (W=2,n=1), (W=2,n=2) unless capped (see dfs-drop:* keys)"},
+        trusted=["as C05; std::process::exit terminating all threads is observed in the child-process test only", "Buffered is observed by timing (two reads of the pull counter 40 ms apart) rather than under the controller"],
+        claim="Transition systems of Pipe (with drop) and Buffered (as repaired) validated by trace validation / observation; oracle: pulled <= consumed + 2*W at every step while the consumer is there, <= pulled_at_drop + W afterwards and every worker exits; Buffered: pulled <= consumed + B + 1, at most one further pull after the drop, thread exits; a panicking worker terminates the process. Theorems (pipe_lookahead, pipe_drop_stops, pipe_drop_exits, buffered_lookahead, buffered_drop_stops, buffered_drop_exits, buffered_complete) are being proved against the model; those present in Props/C09.lean are audited on every run.",
+        note="D4 (buffer thread drains the upstream forever after a drop) was found by this check and repaired by a fix: commit. That std::process::exit really ends the process is runtime behaviour covered only by the child-process test.",
+        min_nontrivial={"quick": 100, "thorough": 2000},
+    ),
     "C06": dict(
         anchors=[("src/data/loading.rs", r"fn build_batch\("), ("src/data/loading.rs", r"fn batch_from\("), ("src/data/loading.rs", r"enum BatchLimit \{"), ("src/data/loading.rs", r"impl BatchLimit \{"), ("src/utils.rs", r"pub fn find_subsequences_of_max_size_k<")],
         rule="item vectors (unique id, size) of length 0-40 with sizes from {0,1,2,3,5,8,13,40} (all-zero, all-equal and all-oversized streams explicit) x sort x shuffle x prefetch 0-4 x limit 0-16 x {BatchSize, PaddedItemSize} x seeds; the request carries the batch sequence the real Batched iterator returned, the model replays it step by step (stepAllowed) and must end in the finished state; thorough adds all size vectors of length <= 5 with sizes <= 3 x all 8 flag combinations x limits {0,1,2,3,6} x prefetch {0,2}",
@@ -81,7 +99,7 @@ PROPS = {
         rule="vectors of source lengths (1-6 sources, lengths 0-30, ~15% empty sources, single source, unequal lengths) x 3 strategies x seeds, realised as temporary jsonl files whose lines carry their identity '<src>-<k>' and read through train_data_generator_from_jsonl; sequential / interleaved: exact output sequence (item, source tag); weighted: the observed tag sequence must be a merge of the sources that exhausts all of them; every next() under a watchdog; thorough adds all length vectors of 1-4 sources with lengths 0-4",
         exhaustive={"thorough": "all length vectors of 1..4 sources with lengths 0..4 (780) x 3 strategies"},
         trusted=["WeightedIndex / ChaCha8: the weighted draws are choices; the model admits every merge", "file system and serde_json (jsonl reading)"],
-        claim="Model of MultiTrainDataGenerator::next / next_idx (interleaved as repaired) with explicit finished flags; exact correspondence for sequential and interleaved, relational (merge) for weighted, constructor error for weighted with an empty source. Oracle: every item exactly once, per-source order, correct tags, strategy order (non-decreasing tags / round robin rows), reproducibility from the seed, termination (watchdog). Theorems (mgRun_merge, per-source order, sequential_order, interleaved_round_robin) are being proved against this model; those present in Props/C07.lean are audited on every run.",
+        claim="Theorems for every non-empty list of sources, every strategy and every choice stream (random draws): mgRun_merge (the output is a merge of the sources that exhausts all of them: every yield is the next item of the source it is tagged with; the iteration terminates — the fuels are proved sufficient), consume_projection + mgRun_per_source (the items tagged k, in output order, are exactly source k), mgRun_length, sequential_order (= source after source), interleaved_round_robin (= rows of heads of the sources that still have items). Exact correspondence for sequential and interleaved, relational (merge) for weighted, constructor error for weighted with an empty source; oracle: every item exactly once, per-source order, tags, strategy order, reproducibility from the seed, termination (watchdog).",
         note="D5 (interleaved never returns once one source is left) was found by this check (watchdog) and repaired by a fix: commit.",
         min_nontrivial={"quick": 200, "thorough": 2000},
     ),
